@@ -158,10 +158,7 @@ func simHistory(tw *trace.Writer, rng *rand.Rand, cs string, nops int, encRunes 
 		}
 	}
 	tw.Emit(trace.Ev{"ev": "Reset"})
-	fb0 := []interface{}{}
-	for k, v := range tcell.RuneFallbacks { // documented: registered implicitly on every screen
-		fb0 = append(fb0, []interface{}{int(k), trace.Str(v)})
-	}
+	fb0 := stockFallbacks // documented: registered implicitly on every screen
 	tw.Emit(trace.Ev{"ev": "Config", "cs": cs, "enc": encmap, "fb0": fb0})
 	for _, o := range ops {
 		r.ops++
